@@ -611,7 +611,27 @@ pub enum Expect {
 }
 
 /// Match stdout against the expectation; returns a description of the first mismatch.
+/// Remove ANSI escape sequences (colour is presentation, not content).
+pub fn strip_ansi(s: &str) -> String {
+    let mut out = String::with_capacity(s.len());
+    let mut it = s.chars().peekable();
+    while let Some(c) = it.next() {
+        if c == '\u{1b}' && it.peek() == Some(&'[') {
+            it.next();
+            for d in it.by_ref() {
+                if ('@'..='~').contains(&d) {
+                    break;
+                }
+            }
+        } else {
+            out.push(c);
+        }
+    }
+    out
+}
+
 pub fn match_stdout(stdout: &str, expect: &[Expect]) -> Result<(), String> {
+    let stdout = strip_ansi(stdout);
     let lines: Vec<&str> = stdout.split('\n').collect();
     // a trailing newline yields a last empty element
     let mut pos = 0;
